@@ -1,19 +1,295 @@
 import Girc.Base.Utf8
 import Girc.Base.GoLib
+/-
+  General facts about the UTF-8 model (`utf8Width`, `validUTF8`, `toValidUTF8`).
+  Layout: (1) `utf8Width` looks at ≤ 4 bytes: bounds, prefix stability, ASCII boundary;
+  (2) fuel independence and fuel-free unfolding lemmas (`validUTF8_of_width_*`, `tv_of_width_*`);
+  (3) the theorems: valid input is a fixpoint, validity of concatenations, ASCII strings,
+  distribution of the sanitiser over ASCII separators, `toValidUTF8 []` only deletes bytes.
+-/
+set_option linter.unusedSimpArgs false
 namespace Girc.Proofs.Utf8
 open Girc
 
-theorem toValidUTF8_of_valid (r s : Bytes) (h : validUTF8 s = true) : toValidUTF8 r s = s := by
-  sorry
+/-! ### `utf8Width` -/
+
+theorem utf8Width_append {s : Bytes} {w : Nat} (t : Bytes) (h : utf8Width s = some w) :
+    utf8Width (s ++ t) = some w := by
+  rcases s with _ | ⟨b0, rest⟩
+  · simp [utf8Width] at h
+  · by_cases c1 : b0 < 128
+    · simp [utf8Width, c1] at h ⊢; exact h
+    by_cases c2 : (194 ≤ b0 ∧ b0 ≤ 223)
+    · rcases rest with _ | ⟨b1, rest⟩ <;> simp [utf8Width, c1, c2] at h ⊢; exact h
+    by_cases c3 : (224 ≤ b0 ∧ b0 ≤ 239)
+    · rcases rest with _ | ⟨b1, _ | ⟨b2, rest⟩⟩ <;> simp [utf8Width, c1, c2, c3] at h ⊢; exact h
+    by_cases c4 : (240 ≤ b0 ∧ b0 ≤ 244)
+    · rcases rest with _ | ⟨b1, _ | ⟨b2, _ | ⟨b3, rest⟩⟩⟩ <;> simp [utf8Width, c1, c2, c3, c4] at h ⊢; exact h
+    · simp [utf8Width, c1, c2, c3, c4] at h
+
+theorem utf8Width_bounds {s : Bytes} {w : Nat} (h : utf8Width s = some w) :
+    1 ≤ w ∧ w ≤ 4 ∧ w ≤ s.length := by
+  rcases s with _ | ⟨b0, rest⟩
+  · simp [utf8Width] at h
+  · by_cases c1 : b0 < 128
+    · simp [utf8Width, c1] at h ⊢; omega
+    by_cases c2 : (194 ≤ b0 ∧ b0 ≤ 223)
+    · rcases rest with _ | ⟨b1, rest⟩ <;> simp [utf8Width, c1, c2] at h ⊢; omega
+    by_cases c3 : (224 ≤ b0 ∧ b0 ≤ 239)
+    · rcases rest with _ | ⟨b1, _ | ⟨b2, rest⟩⟩ <;> simp [utf8Width, c1, c2, c3] at h ⊢; omega
+    by_cases c4 : (240 ≤ b0 ∧ b0 ≤ 244)
+    · rcases rest with _ | ⟨b1, _ | ⟨b2, _ | ⟨b3, rest⟩⟩⟩ <;> simp [utf8Width, c1, c2, c3, c4] at h ⊢; omega
+    · simp [utf8Width, c1, c2, c3, c4] at h
+
+theorem ascii_facts : ∀ x : Byte, x < 0x80 →
+    isCont x = false ∧ ¬ (0x80 ≤ x) ∧ ¬ (0x90 ≤ x) ∧ ¬ (0xA0 ≤ x) := by decide +kernel
+
+theorem utf8Width_append_ascii (a b : Bytes) (x : Byte) (hx : x < 0x80) (ha : a ≠ []) :
+    utf8Width (a ++ x :: b) = utf8Width a := by
+  obtain ⟨h1, h2, h3, h4⟩ := ascii_facts x hx
+  have e3 : ∀ b0 : Byte, decide ((if b0 = 224 then (160:Byte) else 128) ≤ x) = false := by
+    intro b0; split <;> simp_all
+  have e4 : ∀ b0 : Byte, decide ((if b0 = 240 then (144:Byte) else 128) ≤ x) = false := by
+    intro b0; split <;> simp_all
+  rcases a with _ | ⟨b0, _ | ⟨b1, _ | ⟨b2, _ | ⟨b3, rest⟩⟩⟩⟩
+  · exact absurd rfl ha
+  · rcases b with _ | ⟨y, _ | ⟨z, b⟩⟩ <;> simp [utf8Width, h1, e3, e4]
+  · rcases b with _ | ⟨y, b⟩ <;> simp [utf8Width, h1, e3, e4]
+  · simp [utf8Width, h1, e3, e4]
+  · simp [utf8Width]
+
+/-! ### Fuel independence, unfolding -/
+
+
+theorem validUTF8Fuel_nil (n : Nat) : validUTF8Fuel n [] = true := by
+  cases n <;> rfl
+
+theorem toValidUTF8Fuel_nil (r : Bytes) (n : Nat) (run : Bool) : toValidUTF8Fuel r n run [] = [] := by
+  cases n <;> rfl
+
+theorem length_drop_lt {s : Bytes} {w : Nat} (h : utf8Width s = some w) :
+    (s.drop w).length < s.length := by
+  have := utf8Width_bounds h
+  simp only [List.length_drop]; omega
+
+/-- Fuel independence for `validUTF8Fuel`. -/
+theorem validUTF8Fuel_eq : ∀ (n m : Nat) (s : Bytes), s.length ≤ n → s.length ≤ m →
+    validUTF8Fuel n s = validUTF8Fuel m s
+  | n, m, [], _, _ => by rw [validUTF8Fuel_nil, validUTF8Fuel_nil]
+  | 0, _, _ :: _, h, _ => by simp at h
+  | _, 0, _ :: _, _, h => by simp at h
+  | n + 1, m + 1, b :: rest, hn, hm => by
+    simp only [validUTF8Fuel]
+    cases hw : utf8Width (b :: rest) with
+    | none => rfl
+    | some w =>
+      have := length_drop_lt hw
+      exact validUTF8Fuel_eq n m _ (by omega) (by omega)
+
+/-- Fuel independence for `toValidUTF8Fuel`. -/
+theorem toValidUTF8Fuel_eq (r : Bytes) : ∀ (n m : Nat) (run : Bool) (s : Bytes), s.length ≤ n → s.length ≤ m →
+    toValidUTF8Fuel r n run s = toValidUTF8Fuel r m run s
+  | n, m, _, [], _, _ => by rw [toValidUTF8Fuel_nil, toValidUTF8Fuel_nil]
+  | 0, _, _, _ :: _, h, _ => by simp at h
+  | _, 0, _, _ :: _, _, h => by simp at h
+  | n + 1, m + 1, run, b :: rest, hn, hm => by
+    simp only [toValidUTF8Fuel]
+    cases hw : utf8Width (b :: rest) with
+    | none =>
+      simp only
+      rw [toValidUTF8Fuel_eq r n m true rest (by simp at hn; omega) (by simp at hm; omega)]
+    | some w =>
+      have := length_drop_lt hw
+      simp only
+      rw [toValidUTF8Fuel_eq r n m false _ (by omega) (by omega)]
+
+theorem validUTF8_nil : validUTF8 [] = true := rfl
+
+theorem validUTF8_of_width_some {s : Bytes} {w : Nat} (h : utf8Width s = some w) :
+    validUTF8 s = validUTF8 (s.drop w) := by
+  have hl := length_drop_lt h
+  match s, h, hl with
+  | b :: rest, h, hl =>
+    unfold validUTF8
+    simp only [List.length_cons, validUTF8Fuel, h]
+    exact validUTF8Fuel_eq _ _ _ (by simp at hl ⊢; omega) (Nat.le_refl _)
+
+theorem validUTF8_of_width_none {s : Bytes} (hs : s ≠ []) (h : utf8Width s = none) :
+    validUTF8 s = false := by
+  match s, hs, h with
+  | b :: rest, _, h =>
+    unfold validUTF8
+    simp only [List.length_cons, validUTF8Fuel, h]
+
+theorem validUTF8_cons_inv {s : Bytes} (hs : s ≠ []) (h : validUTF8 s = true) :
+    ∃ w, utf8Width s = some w ∧ validUTF8 (s.drop w) = true := by
+  cases hw : utf8Width s with
+  | none => rw [validUTF8_of_width_none hs hw] at h; cases h
+  | some w => exact ⟨w, rfl, by rw [← validUTF8_of_width_some hw]; exact h⟩
+
+/-- `toValidUTF8` generalised over the `inRun` flag, with canonical fuel. -/
+def tv (r : Bytes) (run : Bool) (s : Bytes) : Bytes := toValidUTF8Fuel r s.length run s
+
+theorem toValidUTF8_eq_tv (r s : Bytes) : toValidUTF8 r s = tv r false s := rfl
+
+@[simp] theorem tv_nil (r : Bytes) (run : Bool) : tv r run [] = [] := rfl
+
+theorem tv_of_width_some (r : Bytes) (run : Bool) {s : Bytes} {w : Nat} (h : utf8Width s = some w) :
+    tv r run s = s.take w ++ tv r false (s.drop w) := by
+  have hl := length_drop_lt h
+  match s, h, hl with
+  | b :: rest, h, hl =>
+    unfold tv
+    simp only [List.length_cons, toValidUTF8Fuel, h]
+    rw [toValidUTF8Fuel_eq r _ _ false _ (by simp at hl ⊢; omega) (Nat.le_refl _)]
+
+theorem tv_of_width_none (r : Bytes) (run : Bool) {b : Byte} {rest : Bytes}
+    (h : utf8Width (b :: rest) = none) :
+    tv r run (b :: rest) = (if run then [] else r) ++ tv r true rest := by
+  unfold tv
+  simp only [List.length_cons, toValidUTF8Fuel, h]
+
+
+
+theorem utf8Width_ascii {x : Byte} (rest : Bytes) (hx : x < 0x80) : utf8Width (x :: rest) = some 1 := by
+  simp [utf8Width, hx]
+
+/-- Strong induction on the length of a byte string. -/
+theorem bytes_strong_induction {P : Bytes → Prop}
+    (h : ∀ s, (∀ t : Bytes, t.length < s.length → P t) → P s) : ∀ s, P s := by
+  intro s
+  generalize hn : s.length = n
+  induction n using Nat.strongRecOn generalizing s with
+  | _ n ih => exact h s (fun t ht => ih t.length (hn ▸ ht) t rfl)
+
+theorem tv_of_valid (r : Bytes) (s : Bytes) : validUTF8 s = true → tv r false s = s := by
+  induction s using bytes_strong_induction with
+  | _ s ih =>
+    intro hv
+    by_cases hs : s = []
+    · subst hs; rfl
+    · obtain ⟨w, hw, hv'⟩ := validUTF8_cons_inv hs hv
+      rw [tv_of_width_some r false hw, ih _ (length_drop_lt hw) hv', List.take_append_drop]
+
+theorem toValidUTF8_of_valid (r s : Bytes) (h : validUTF8 s = true) : toValidUTF8 r s = s :=
+  tv_of_valid r s h
 
 theorem validUTF8_append (a b : Bytes) (ha : validUTF8 a = true) (hb : validUTF8 b = true) :
     validUTF8 (a ++ b) = true := by
-  sorry
+  induction a using bytes_strong_induction with
+  | _ a ih =>
+    by_cases hs : a = []
+    · subst hs; simpa using hb
+    · obtain ⟨w, hw, hv'⟩ := validUTF8_cons_inv hs ha
+      rw [validUTF8_of_width_some (utf8Width_append b hw),
+        List.drop_append_of_le_length (utf8Width_bounds hw).2.2]
+      exact ih _ (length_drop_lt hw) hv'
 
 theorem validUTF8_ascii (s : Bytes) (h : s.all (· < 0x80) = true) : validUTF8 s = true := by
-  sorry
+  induction s with
+  | nil => rfl
+  | cons x rest ih =>
+    simp only [List.all_cons, Bool.and_eq_true, decide_eq_true_eq] at h
+    rw [validUTF8_of_width_some (utf8Width_ascii rest h.1)]
+    exact ih h.2
 
-theorem toValidUTF8_nil_length_le (s : Bytes) : (toValidUTF8 [] s).length ≤ s.length := by
-  sorry
+/-- With an empty replacement, the sanitiser only deletes bytes. -/
+theorem tv_nil_sublist (run : Bool) (s : Bytes) : (tv [] run s).Sublist s := by
+  induction s using bytes_strong_induction generalizing run with
+  | _ s ih =>
+    match s, ih with
+    | [], _ => simp
+    | b :: rest, ih =>
+      cases hw : utf8Width (b :: rest) with
+      | none =>
+        rw [tv_of_width_none [] run hw]
+        have : (if run = true then ([] : Bytes) else []) = [] := by split <;> rfl
+        rw [this, List.nil_append]
+        exact List.Sublist.cons _ (ih rest (by simp) true)
+      | some w =>
+        rw [tv_of_width_some [] run hw]
+        have := (List.Sublist.refl ((b :: rest).take w)).append (ih _ (length_drop_lt hw) false)
+        rwa [List.take_append_drop] at this
+
+theorem toValidUTF8_nil_sublist (s : Bytes) : (toValidUTF8 [] s).Sublist s := tv_nil_sublist false s
+
+theorem toValidUTF8_nil_length_le (s : Bytes) : (toValidUTF8 [] s).length ≤ s.length :=
+  (toValidUTF8_nil_sublist s).length_le
+
+
+theorem tv_append_ascii (r : Bytes) (run : Bool) (a b : Bytes) (x : Byte) (hx : x < 0x80) :
+    tv r run (a ++ x :: b) = tv r run a ++ x :: tv r false b := by
+  induction a using bytes_strong_induction generalizing run with
+  | _ a ih =>
+    match a, ih with
+    | [], _ =>
+      rw [List.nil_append, tv_of_width_some r run (utf8Width_ascii b hx)]
+      simp
+    | c :: a', ih =>
+      have hE := utf8Width_append_ascii (c :: a') b x hx (by simp)
+      cases hw : utf8Width (c :: a') with
+      | none =>
+        rw [hw] at hE
+        rw [List.cons_append] at hE ⊢
+        rw [tv_of_width_none r run hE, tv_of_width_none r run hw, ih a' (by simp) true,
+          List.append_assoc]
+      | some w =>
+        rw [hw] at hE
+        have hb := (utf8Width_bounds hw).2.2
+        rw [tv_of_width_some r run hE, tv_of_width_some r run hw,
+          List.take_append_of_le_length hb, List.drop_append_of_le_length hb,
+          ih _ (length_drop_lt hw) false, List.append_assoc]
+
+theorem toValidUTF8_append_ascii (r a b : Bytes) (x : Byte) (hx : x < 0x80) :
+    toValidUTF8 r (a ++ x :: b) = toValidUTF8 r a ++ x :: toValidUTF8 r b :=
+  tv_append_ascii r false a b x hx
+
+theorem toValidUTF8_append_ascii' (r a b : Bytes) (x : Byte) (hx : x < 0x80) :
+    toValidUTF8 r (a ++ [x] ++ b) = toValidUTF8 r a ++ [x] ++ toValidUTF8 r b := by
+  simpa using toValidUTF8_append_ascii r a b x hx
+
+theorem validUTF8_append_of_valid_left (a b : Bytes) (ha : validUTF8 a = true) :
+    validUTF8 (a ++ b) = validUTF8 b := by
+  induction a using bytes_strong_induction with
+  | _ a ih =>
+    by_cases hs : a = []
+    · subst hs; simp
+    · obtain ⟨w, hw, hv'⟩ := validUTF8_cons_inv hs ha
+      rw [validUTF8_of_width_some (utf8Width_append b hw),
+        List.drop_append_of_le_length (utf8Width_bounds hw).2.2]
+      exact ih _ (length_drop_lt hw) hv'
+
+theorem toValidUTF8_append_of_valid_left (r a b : Bytes) (ha : validUTF8 a = true) :
+    toValidUTF8 r (a ++ b) = a ++ toValidUTF8 r b := by
+  show tv r false (a ++ b) = a ++ tv r false b
+  induction a using bytes_strong_induction with
+  | _ a ih =>
+    by_cases hs : a = []
+    · subst hs; simp
+    · obtain ⟨w, hw, hv'⟩ := validUTF8_cons_inv hs ha
+      have hb := (utf8Width_bounds hw).2.2
+      rw [tv_of_width_some r false (utf8Width_append b hw),
+        List.take_append_of_le_length hb, List.drop_append_of_le_length hb,
+        ih _ (length_drop_lt hw) hv', ← List.append_assoc, List.take_append_drop]
+
+/-- Splitting validity at an ASCII byte. -/
+theorem validUTF8_append_ascii (a b : Bytes) (x : Byte) (hx : x < 0x80) :
+    validUTF8 (a ++ x :: b) = (validUTF8 a && validUTF8 b) := by
+  induction a using bytes_strong_induction with
+  | _ a ih =>
+    by_cases hs : a = []
+    · subst hs
+      rw [List.nil_append, validUTF8_of_width_some (utf8Width_ascii b hx)]
+      simp [validUTF8_nil]
+    · have hE := utf8Width_append_ascii a b x hx hs
+      cases hw : utf8Width a with
+      | none =>
+        rw [hw] at hE
+        rw [validUTF8_of_width_none (by simp) hE, validUTF8_of_width_none hs hw]; rfl
+      | some w =>
+        rw [hw] at hE
+        have hb := (utf8Width_bounds hw).2.2
+        rw [validUTF8_of_width_some hE, validUTF8_of_width_some hw,
+          List.drop_append_of_le_length hb, ih _ (length_drop_lt hw)]
 
 end Girc.Proofs.Utf8
